@@ -85,6 +85,17 @@ def oidOf : PyVal → Nat
   | .inst o _ _ _ _ => o
   | _ => 0
 
+/-- the value with every identity erased (the key of a store that keeps a snapshot of the input's contents) -/
+partial def zeroOid : PyVal → PyVal
+  | .list _ xs => .list 0 (xs.map zeroOid)
+  | .tuple _ xs => .tuple 0 (xs.map zeroOid)
+  | .set _ xs => .set 0 (xs.map zeroOid)
+  | .dict _ kvs => .dict 0 (kvs.map (fun p => (zeroOid p.1, zeroOid p.2)))
+  | .just _ v => .just 0 (zeroOid v)
+  | .inst _ _ c ns vs => .inst 0 0 c ns (vs.map zeroOid)
+  | .sub c v => .sub c (zeroOid v)
+  | v => v
+
 def cevJ : CEv → Json
   | .get m => Json.arr #["cget", modeJ m]
   | .run m => Json.arr #["crun", modeJ m]
@@ -103,6 +114,7 @@ def handleCache (j : Json) : D Json := do
   let keq : PyVal → PyVal → Bool ← match ← str j "key" with
     | "identity" => pure (fun a b => oidOf a == oidOf b && oidOf a != 0)
     | "typedEq" => pure typedEq
+    | "snapshot" => pure (fun a b => (valJ (zeroOid a)).compress == (valJ (zeroOid b)).compress)
     | k => throw s!"bad key {k}"
   let hist ← (← arr j "history").toList.mapM (fun c => do
     pure (← getMode (← str c "mode"), ← getVal (← fld c "x")))
